@@ -1,5 +1,5 @@
 #![feature(rustc_private)]
-// PROTOTYPE (scratch, not part of /verif yet): MIR fact extractor probing the rustc_private API surface.
+// MIR fact extractor of /verif: dumps type-checked MIR (dev profile, mir-opt-level 0) of each crate as JSON facts (schema: DESIGN.md appendix A).
 extern crate rustc_abi;
 extern crate rustc_driver;
 extern crate rustc_hir;
@@ -379,6 +379,21 @@ impl<'tcx> Cx<'tcx> {
     fn body(&self, did: DefId) -> String {
         let tcx = self.tcx;
         let body = tcx.optimized_mir(did);
+        self.body_of(did, body)
+    }
+
+    // promoted constants of `did` (e.g. `&ConnectionState::Connected`, `&Duration::from_secs(3)` temporaries): tiny bodies computing `_0`
+    fn promoted(&self, did: DefId) -> Vec<(String, String)> {
+        let tcx = self.tcx;
+        let mut out = Vec::new();
+        for (i, b) in tcx.promoted_mir(did).iter_enumerated() {
+            out.push((format!("{}::promoted[{}]", path_of(tcx, did), i.as_usize()), self.body_of(did, b)));
+        }
+        out
+    }
+
+    fn body_of(&self, did: DefId, body: &Body<'tcx>) -> String {
+        let tcx = self.tcx;
         let env = TypingEnv::post_analysis(tcx, did);
         let mut out = String::new();
         let kind = tcx.def_kind(did);
@@ -548,6 +563,9 @@ impl rustc_driver::Callbacks for Cb {
             first = false;
             let _ = write!(out, "{}:{}", js(&path_of(tcx, did)), cx.body(did));
             n += 1;
+            for (pp, pb) in cx.promoted(did) {
+                let _ = write!(out, ",{}:{}", js(&pp), pb);
+            }
         }
         out.push_str("}}");
         let path = format!("{}/{}.json", dir, krate);
